@@ -5,11 +5,27 @@ open Spec
 section
 variable {rd : Str → Option Nat}
 
-/-- the first part of `judge_clean_accepted`, reusable: a clean shaped document is consumed up to `</glyph>` -/
+/-- **the exact parser state after the clean items `pre`** of a glyph of format `ver`: body level, the identifiers seen are
+    exactly the identifiers of `pre`, each once-only flag is set exactly if its element occurred (for `note`: the field is
+    filled only if a note occurred, and certainly if a note with text occurred — the recorded finding
+    `repeated-note-after-empty-note` lives in the gap) -/
+structure CleanState (ver : Nat) (pre : List Item) (s : PS) : Prop where
+  mode : s.mode = .body
+  ver : s.ver = ver
+  seen : ∀ i, i ∈ s.seen ↔ i ∈ pre.flatMap itemIdents
+  adv : s.seenAdvance = true ↔ 0 < cnt pre sAdvance
+  outline : s.seenOutline = true ↔ 0 < cnt pre sOutline
+  lib : s.seenLib = true ↔ 0 < cnt pre sLib
+  image : s.g.image.isSome = true ↔ 0 < cnt pre sImage
+  note : s.g.note.isSome = true → 0 < cnt pre sNote
+  noteLow : (∃ it, it ∈ pre ∧ noteWithText it) → s.g.note.isSome = true
+  libOK : LibOK s.g.lib
+
+/-- the first part of `judge_clean_accepted`, reusable, with the exact state: a clean shaped document is consumed up to
+    `</glyph>` and leaves the parser in the state `CleanState` describes -/
 theorem clean_items_reach (law : ReadsNumerals rd) {d : Doc} (hj : judge rd d = ([], false)) (hs : Shaped d) :
     ∃ as name ver s', d.gattrs = some as ∧ parseGlyphAttrs (some as) = .ok (name, ver) ∧ (docVersion d).1 = some ver ∧
-      Reach rd { g := { name := name }, ver := ver } (d.items.flatMap Item.evs) s' ∧ s'.mode = .body ∧ s'.ver = ver ∧
-      LibOK s'.g.lib := by
+      Reach rd { g := { name := name }, ver := ver } (d.items.flatMap Item.evs) s' ∧ CleanState ver d.items s' := by
   obtain ⟨ver, hc⟩ := judge_clean hj
   have hga : ∃ as, d.gattrs = some as := by
     cases hg : d.gattrs with
@@ -30,11 +46,14 @@ theorem clean_items_reach (law : ReadsNumerals rd) {d : Doc} (hj : judge rd d = 
     · right
       simp only [not_or] at h
       exact h
-  obtain ⟨s', hr, hm', hl'⟩ := items_reach law d.items { g := { name := name }, ver := ver } rfl hc.items hs.items
+  obtain ⟨s', hr, hm', hl', hrun⟩ := items_reach law d.items { g := { name := name }, ver := ver } rfl hc.items hs.items
     hc.idents (by simp) hcnt (by intro h; cases h) (by intro h; cases h) (by intro h; cases h)
     (by intro h; simp at h) (by intro h; simp at h) (by intro v hv; simp [dictGet] at hv)
     (libOK_of_objectLibsCheck hc.objlibs)
-  exact ⟨as, name, ver, s', has, hparse, hc.version, hr, hm', (reach_mono rd hr).ver, hl'⟩
+  refine ⟨as, name, ver, s', has, hparse, hc.version, hr, ?_⟩
+  exact ⟨hm', hrun.ver, fun i => by simpa using hrun.seen i, by simpa using hrun.adv, by simpa using hrun.outline,
+    by simpa using hrun.lib, by simpa using hrun.image, fun h => by simpa using hrun.note h,
+    fun h => hrun.noteLow (Or.inr h), hl'⟩
 
 /-! ### the converse, for a fragment: hard errors `judge` flags are rejected -/
 
@@ -220,7 +239,9 @@ theorem judge_hard_error_rejected (law : ReadsNumerals rd) {d : Doc} {pre post :
     (hpre : judge rd { d with items := pre } = ([], false)) (hs : Shaped { d with items := pre })
     (hver : (docVersion d).1 = some ver) (hbad : HardFlag ver bad) :
     accepted (parseGlif rd (Spec.flatten d)) = false := by
-  obtain ⟨as, name, ver', s', has, hparse, hv', hr, hm', hsv, _⟩ := clean_items_reach law hpre hs
+  obtain ⟨as, name, ver', s', has, hparse, hv', hr, hcs⟩ := clean_items_reach law hpre hs
+  have hm' := hcs.mode
+  have hsv := hcs.ver
   have hvv : ver' = ver := by
     have : (docVersion { d with items := pre }).1 = (docVersion d).1 := rfl
     rw [this, hver] at hv'
